@@ -1,3 +1,4 @@
 import ArroyProofs.AuditCmd
 import ArroyProofs.Properties.C02
+import ArroyProofs.Properties.Reachable
 #audit Arroy.C02
